@@ -93,6 +93,74 @@ def judge(ctx, mode, extra, obs, acc):
     return found
 
 
+@core.guarded(lambda c, *a: dict(kind='join', case=__import__('mc.joinseam', fromlist=['x']).describe(c)))
+def check_join(c, acc):
+    """the join step alone (mc/joinseam.py): eligibility, subset and union clauses on rows the real aligner built"""
+    from mc import joinseam
+    o = joinseam.run(c)
+    md = c[5]
+    found = []
+    case = dict(kind='join', case=joinseam.describe(c))
+    sig = {'strand': '-' if c[4] else '+'}
+    if o['second']:
+        pa, pb = o['first'], o['second'][0]
+        ref = [x * joinseam.SCALE for x in joinseam.REF]
+        sa, ea, sb, eb = ref[pa[0][0] - 1], ref[pa[-1][0] - 1], ref[pb[0][0] - 1], ref[pb[-1][0] - 1]
+        gap = abs(max(sa, sb) - min(ea, eb))
+        if len(o['joined']) > 1:
+            found.append(('more-than-one-joined-record', str(o['joined']), 'join', sig))
+        for j in o['joined'][:1]:
+            if gap > md:
+                found.append(('joined-beyond-maxDifference', 'gap %s > %s' % (gap, md), 'join', sig))
+            pj = j['pairs']
+            union = sorted(set(pa) | set(pb))
+            if not set(pj) <= set(union):
+                found.append(('joined-pairs-not-subset-of-parts', 'J %s A %s B %s' % (pj, pa, pb), 'join', sig))
+            elif not matching_problems(union, len(joinseam.REF), 1, o['n'], c[4]) and pj != union:
+                found.append(('joined-record-is-not-the-valid-union', 'J %s union %s' % (pj, union), 'join', dict(sig, dropped='other')))
+            if o['separate']:
+                found.append(('single-pass-record-both-unjoined-and-joined', str(o['separate']), 'join', sig))
+        if not o['joined'] and sorted(map(tuple, o['separate'])) != sorted(map(tuple, [pa, pb])):
+            found.append(('single-pass-record-neither-unjoined-nor-in-one-joined-record', 'separate %s' % o['separate'], 'join', sig))
+    if acc is not None:
+        acc.evals += 1
+        acc.transitions += 2 + len(o['second']) + len(o['joined'])
+        acc.state(('j', len(o['first']), tuple(len(x) for x in o['second']), tuple(len(j['pairs']) for j in o['joined'])))
+        if o['joined']:
+            acc.nontriv(('j',) + tuple(c))
+        acc.classes['join-seam:joined' if o['joined'] else ('join-seam:two-rows-not-joined' if o['second'] else 'join-seam:one-row')] += 1
+        for f in found:
+            acc.viol(f[0], case, f[1], f[2], f[3])
+        acc.sample(case)
+    return found
+
+
+class JoinSeam(core.Layer):
+    name = 'S1:join-seam'
+    optional = False
+
+    def __init__(self):
+        from mc import joinseam
+        self.cases = joinseam.cases()
+        self.chunk = 12
+        self.bounds = dict(cases=len(self.cases), parts=[joinseam.N1, list(joinseam.N2S)], placements='collinear with 0/1/3/6 labels between, transposed with 0/1/3',
+                           gaps=['true', 'insertion', 'small'], strands=['+', '-'], maxDifference=[0, 4000, 1000000], junk_labels=[0, 2])
+        self.rule = '%d two-part lattice molecules through align / getUnalignedFragments / align / AlignmentResults.resolve' % len(self.cases)
+
+    def nblocks(self):
+        return (len(self.cases) + self.chunk - 1) // self.chunk
+
+    def run_block(self, b, acc):
+        for c in self.cases[b * self.chunk:(b + 1) * self.chunk]:
+            acc.seq += 1
+            check_join(c, acc)
+
+    def replay(self, case):
+        c = case['case']
+        return check_join((c['first_pass_part'][0], c['other_part'][0], c['first_pass_part_leads'], c['gap'], c['reverse'], c['maxDifference'],
+                           c.get('junk', 0), c['other_part'][1]), None)
+
+
 def layers(tier, seed):
     n = 30 if tier == 'quick' else 400
     refs, pool, sets = e2e.query_sets(n, 'c08', size=(3, 4))
@@ -100,6 +168,6 @@ def layers(tier, seed):
         sets = sets + e2e.query_sets(3 if tier == 'quick' else 40, 'c08-seed-%d' % seed, size=(3, 4))[2]
     ws = [e2e.set_world(refs, pool, s, nrefs=(3, 1, 2)[i % 3], ref_ids=(17, 4, 30) if i % 4 == 1 else None) for i, s in enumerate(sets)]
     extras = tuple(('-diff', str(d)) for d in (0, 20000, 100000, 500000))
-    return [e2e.WorldLayer('worlds', ws, judge, extras=extras,
+    return [JoinSeam(), e2e.WorldLayer('worlds', ws, judge, extras=extras,
                            bounds=dict(worlds=len(ws), maxDifference=[0, 20000, 100000, 500000], modes=list(e2e.MODES)),
                            rule='%d worlds x 4 maxDifference values x 4 modes' % len(ws))]
